@@ -188,7 +188,23 @@ def enumeration(engine, it, ks):
     pres = nsel(ks.present, kv)
     try:
         body2 = it.try_nofork(pres, thunk2)
-        ctx.assume(z3.ForAll(kv, z3.Implies(pres, body2), patterns=[idx(*kv)]))
+        fact = z3.ForAll(kv, z3.Implies(pres, body2), patterns=[idx(*kv)])
+        ctx.assume(fact)
+
+        def closure(bound, _kv=kv, _pres=pres, _n=n, _sq=sq):
+            """For n <= bound the fact is equivalent to: a present key is the key of one of E[0..n-1] (whose idx
+            is pinned by the first enumeration axiom's instances) - a finite statement about the presence map that
+            makes a model of the instances a model of the quantified fact."""
+            alts = []
+            for i0 in range(bound):
+                e = _sq.get(z3.IntVal(i0))
+                keys = key_of(it, ks.shape, e)
+                alts.append(z3.And(i0 < _n, *[a == b for a, b in zip(keys, _kv)]))
+            # stated with the bound variables kept universally quantified but over a decidable shape: the body only
+            # mentions select(present, kv) and equalities between kv and finitely many ground keys
+            return [z3.ForAll(_kv, z3.Implies(_pres, z3.Or(*alts) if alts else z3.BoolVal(False)))]
+        ctx.closures = getattr(ctx, "closures", {})
+        ctx.closures[fact.get_id()] = closure
     except Infeasible:
         pass
     ks.enum = sq
